@@ -259,6 +259,11 @@ Qed.
 Example C16_minimiser_example : forall (f : R -> vec) q t0, dist (f ((fun t : R => t) t0)) q <= dist (f t0) q.
 Proof. intros. lra. Qed.
 
+(** ... and so are the hypotheses on the numbers of samples and starts (15 and 3 in the repaired code, 15 and 1 in the
+    snapshot) *)
+Example C16_closest_counts_example : (1 <= 15)%nat /\ (1 <= 3)%nat /\ (1 <= 1)%nat.
+Proof. lia. Qed.
+
 Print Assumptions C16_discretize_ends.
 Print Assumptions C16_interpolates.
 Print Assumptions C16_length_additive.
